@@ -508,29 +508,34 @@ def jinja_text(n) -> str:
 
 
 def jinja_tainted(expr, is_source: typing.Callable[[str, typing.Any], bool], sanitizers: typing.Set[str],
-                  is_safe: typing.Optional[typing.Callable[[str, typing.Any], bool]] = None) -> typing.List[str]:
-    """Sub-expressions of `expr` that are taint sources and reach the output without passing a sanitising filter."""
+                  is_safe: typing.Optional[typing.Callable[[str, typing.Any], bool]] = None,
+                  neutral_after: typing.Optional[typing.Set[str]] = None) -> typing.List[str]:
+    """Sub-expressions of `expr` that are taint sources and reach the output without passing a sanitising filter.
+
+    With `neutral_after` given, a sanitiser counts only if every filter applied AFTER it (further out in the chain) is
+    itself a sanitiser or is in `neutral_after` (filters that cannot put markup back, unlike e.g. replace("&lt;", "<"))."""
     from nunavut.jinja.jinja2 import nodes as N
 
     found: typing.List[str] = []
 
-    def walk(n, clean: bool) -> None:
+    def walk(n, clean: bool, undone: bool = False) -> None:
         if isinstance(n, N.Filter):
             if not clean and is_source(f"|{n.name}", n):
                 found.append(jinja_text(n))
                 return
-            c = clean or n.name in sanitizers
+            c = clean or (n.name in sanitizers and not undone)
+            u = undone or (neutral_after is not None and n.name not in sanitizers and n.name not in neutral_after)
             if n.node is not None:
-                walk(n.node, c)
+                walk(n.node, c, u)
             for a in list(n.args) + [k.value for k in n.kwargs]:
-                walk(a, c)
+                walk(a, c, u)
             return
         if isinstance(n, N.Test):
             return  # a test yields a boolean
         if isinstance(n, N.CondExpr):
-            walk(n.expr1, clean)
+            walk(n.expr1, clean, undone)
             if n.expr2 is not None:
-                walk(n.expr2, clean)
+                walk(n.expr2, clean, undone)
             return
         t = jinja_text(n)
         if is_safe is not None and is_safe(t, n):
@@ -539,7 +544,7 @@ def jinja_tainted(expr, is_source: typing.Callable[[str, typing.Any], bool], san
             found.append(t)
             return
         for ch in n.iter_child_nodes():
-            walk(ch, clean)
+            walk(ch, clean, undone)
 
     walk(expr, False)
     return found
